@@ -160,6 +160,29 @@ def opHistory (toks : List String) : String :=
     | _, _ => acc ++ ["bad"]
   "ok " ++ " ".intercalate (go 64 toks History.init [])
 
+/-- `printpath <pathnode> NPFX n (prefix ns)* SG <graph>` → the SPARQL path text -/
+def opPrintPath (toks : List String) : String :=
+  match toks with
+  | pn :: "NPFX" :: n :: rest =>
+    match parseTerm pn, n.toNat? with
+    | some pnode, some k =>
+      let pf := (List.range k).filterMap fun i =>
+        match rest[2*i]?, rest[2*i+1]? with
+        | some a, some b => some (unescape a, unescape b)
+        | _, _ => none
+      match rest.drop (2*k) with
+      | "SG" :: rest' =>
+        match parseGraph rest' with
+        | some (sg, _) =>
+          let p := decodePath sg pathDecodeFuel pnode
+          (match Path.print pf 40 p 0 with
+            | .ok s => "ok " ++ escape s
+            | .error e => "err " ++ errStr e)
+        | none => "bad-sg"
+      | _ => "bad-args"
+    | _, _ => "bad-args"
+  | _ => "bad-args"
+
 def step (line : String) : String :=
   match (line.trimAscii.toString.splitOn " ").filter (· ≠ "") with
   | id :: op :: rest =>
@@ -168,6 +191,7 @@ def step (line : String) : String :=
       | "validate" => opValidate rest
       | "pipeline" => opPipeline rest
       | "history" => opHistory rest
+      | "printpath" => opPrintPath rest
       | _ => "bad-op"
     id ++ " " ++ out
   | _ => "? bad-line"
